@@ -201,6 +201,17 @@ def run(ctx, ck) -> None:
     ck.expect('Q5', inv is not None and inv.module is base_mod, inv.node if inv else RULES, 'InverseBinaryRule lives in the module that defines the registry: it is registered before every other rule, so R^T R is deleted before the angles are merged',
               'InverseBinaryRule is not defined next to the registry: R^T R may be merged into R(0) first, and P^T P no longer reduces to the hit-count diagonal', instance='rule order')
 
+    # ------------------------------------------------------------------ Q7 pixel lookup: structural clauses shared with C17
+    from . import c17
+
+    sub = type(ck)(ck.pid)
+    c17.run(ctx, sub)
+    for o in sub.obs:
+        if o.rule.endswith(('P1', 'P2', 'P3', 'P5')):
+            o.rule = f'{ck.pid}.Q7'
+            ck.obs.append(o)
+    ck.floor('Q7', sum(1 for o in ck.obs if o.rule.endswith('Q7')), 10, 'pixel-lookup obligations')
+
     # ------------------------------------------------------------------ Q6 structures across every @
     _q6(ck, world, table, proj_fn, acq_fn)
 
